@@ -23,7 +23,8 @@ func TestMain(m *testing.M) {
 	lib.Extra("rule", "rapid-generated cases: message (arbitrary UTF-8 metadata incl. pre-existing poison keys) x handler result {success(+outputs), error plain/pkg-errors-wrapped/%w-wrapped/multierror/empty text, with or without outputs} "+
 		"x filter {PoisonQueue, always, never, errors.Is sentinel, identity with the returned error, identity with the root cause, text match} x poison publisher outcome {accept, error}, stand-alone and inside a running Router (handler names incl. empty). "+
 		"Oracle = model: filter(e) decides on the error exactly as returned; exactly one poison Publish with same UUID/payload and metadata = original + four poison keys; error cleared only after a successful publish; pass-through otherwise. "+
-		"Non-trivial: the handler failed. Distinct by canonical case encoding.")
+		"Non-trivial: the handler failed. Distinct by canonical case encoding."+
+		" Poison topic spellings are generated (surrounding white space, case, non-ASCII) and used verbatim; the warm-up message may have failed with a failing poison publish.")
 	lib.Extra("assumptions", []string{
 		"in the Router part the settlement of the consumed message is sampled inside the poison Publish and after quiescence (20 s liveness bound)",
 		"what happens to outputs returned together with a poisoned error is not part of the property",
